@@ -1,6 +1,6 @@
 (* Props_C15.v — property C15: ONLY theorem statements, each closed by [exact] of a lemma
    from C15_Proofs, followed by Print Assumptions. *)
-From Verif Require Import Base C15_Model C15_Proofs.
+From Verif Require Import Base C15_Model C15_Proofs C15_Scan C15_ScanProofs.
 Open Scope Z_scope.
 
 (* later positive Limit/Offset values override earlier ones; negative values cancel them;
@@ -89,3 +89,65 @@ Proof.
   split; [|lia].
   repeat constructor; cbn; lia.
 Qed.
+
+(* ---- scan.go: the destination kinds (C15_Scan.scan is the function the checker runs on the rows
+   of every case) ---- *)
+
+(* RowsAffected equals the rows returned: for every looping destination kind it is the number of
+   rows of the statement, for the single-record kinds 1 iff there is a row; whatever the
+   destination held before *)
+Theorem c15_scan_rows_affected : forall k pre rs,
+  s_ra (scan k pre rs) =
+  match k with DStruct | DMap => (if match rs with [] => true | _ => false end then 0 else 1)
+             | _ => Z.of_nat (length rs) end.
+Proof. exact scan_ra. Qed.
+Print Assumptions c15_scan_rows_affected.
+
+(* slices of structs, of pointers and of maps report exactly the statement's rows in order; what a
+   reused slice held before is gone *)
+Theorem c15_scan_slices_same_rows : forall pre rs,
+  s_dest (scan DStructSlice pre rs) = rs /\ s_dest (scan DPtrSlice pre rs) = rs
+  /\ s_dest (scan DMapSlice [] rs) = rs.
+Proof. exact scan_slices_same_rows. Qed.
+Print Assumptions c15_scan_slices_same_rows.
+
+(* an array reports the first rows that fit and nothing of its previous content *)
+Theorem c15_scan_array : forall n pre rs, s_dest (scan (DArray n) pre rs) = firstn n rs.
+Proof. exact scan_array. Qed.
+Print Assumptions c15_scan_array.
+
+(* one struct / one map holds the first row, a primitive the last one *)
+Theorem c15_scan_single_first : forall pre r rs,
+  s_dest (scan DStruct pre (r :: rs)) = [r] /\ s_dest (scan DMap pre (r :: rs)) = [r].
+Proof. exact scan_single. Qed.
+Print Assumptions c15_scan_single_first.
+
+Theorem c15_scan_prim_last : forall pre rs r, s_dest (scan DPrim pre (rs ++ [r])) = [r].
+Proof. exact scan_prim_last. Qed.
+Print Assumptions c15_scan_prim_last.
+
+(* ErrRecordNotFound is raised by a single-record finder exactly when no row arrives, for every
+   destination kind *)
+Theorem c15_scan_not_found_iff : forall k pre rs,
+  scan_not_found true (scan k pre rs) = true <-> rs = [].
+Proof. exact scan_not_found_iff. Qed.
+Print Assumptions c15_scan_not_found_iff.
+
+(* all destination kinds are views of the same row list *)
+Theorem c15_scan_kinds_agree : forall pre rs,
+  s_dest (scan DStructSlice pre rs) = s_dest (scan DPtrSlice pre rs)
+  /\ s_dest (scan DStructSlice pre rs) = s_dest (scan DMapSlice [] rs)
+  /\ s_ra (scan DStructSlice pre rs) = s_ra (scan DMapSlice pre rs)
+  /\ s_ra (scan DStructSlice pre rs) = s_ra (scan DPrim pre rs)
+  /\ (forall n, s_ra (scan (DArray n) pre rs) = s_ra (scan DStructSlice pre rs))
+  /\ hd_error (s_dest (scan DStructSlice pre rs)) = hd_error (s_dest (scan DStruct [] rs))
+  /\ hd_error (s_dest (scan DStruct [] rs)) = hd_error (s_dest (scan DMap [] rs))
+  /\ hd_error (rev (s_dest (scan DStructSlice pre rs))) = hd_error (s_dest (scan DPrim [] rs)).
+Proof. exact scan_kinds_agree. Qed.
+Print Assumptions c15_scan_kinds_agree.
+
+Example c15_scan_nonvacuous :
+  scan (DArray 2) [(9, 9)] [(1, 10); (2, 20); (3, 30)] = {| s_dest := [(1, 10); (2, 20)]; s_ra := 3 |}
+  /\ scan DPrim [(9, 9)] [(1, 10); (2, 20)] = {| s_dest := [(2, 20)]; s_ra := 2 |}
+  /\ scan DMapSlice [(9, 9)] [(1, 10)] = {| s_dest := [(9, 9); (1, 10)]; s_ra := 1 |}.
+Proof. repeat split. Qed.
